@@ -415,8 +415,8 @@ class DemoStorage(ConflictResolvingStorage):
         self._commit_lock.acquire()
 
         with self._lock:
-            self.changes.tpc_begin(transaction, *a, **k)
             self._transaction = transaction
+            self.changes.tpc_begin(transaction, *a, **k)
             self._stored_oids = set()
             del self._resolved[:]
 
